@@ -3,6 +3,7 @@ CONSTANTS
   GuardPerSync = TRUE
   MaxLen = 4
   Deep = FALSE
+  WithAny = FALSE
   UnboundedBrace = TRUE
 INVARIANTS AsBuiltSound AsBuiltCompleteExceptD40
 CHECK_DEADLOCK FALSE
